@@ -180,10 +180,14 @@ def run(ctx: Ctx):
         if v[0] != "comp" or v[2] != ("sym", "self.assignments"):
             return None, None
         out = []
+
+        def split(c):
+            return list(c[2]) if c[0] == "bool" and c[1] == "and" else [c]
+
         for it in v[3]:
-            conds = list(v[4])
+            conds = [k for c in v[4] for k in split(c)]
             while it[0] == "when":
-                conds.append(it[1])
+                conds.extend(split(it[1]))
                 it = it[2]
             out.append((it, conds))
         return ("bv", v[1]), out
